@@ -111,12 +111,6 @@ theorem connect_ok_grows {fl : Flavour} {c : Nat} {svc iid : Nid} {iname : Strin
     · exact ⟨⟨c, Nat.le_refl _, by omega, hci⟩, .inl hcc⟩
     · exact ⟨⟨c + 1, by omega, by omega, hli⟩, .inr hlc⟩
 
-theorem ro_ok_inv {α β : Type} {m : M Topo α} {f : α → M Topo β} {s s' : Topo} {b : β} (hm : ReadOnly m)
-    (h : (m >>= f) s = (.ok b, s')) : ∃ a, m s = (.ok a, s) ∧ f a s = (.ok b, s') := by
-  obtain ⟨a, t, h1, h2⟩ := bind_ok_inv h
-  have := ro_run hm h1; subst this
-  exact ⟨a, h1, h2⟩
-
 theorem tryCatch_ok_inv {α : Type} {m : M Topo α} {p : Err → Bool} {hd : Err → M Topo α} {s s1 : Topo} {a : α}
     (hh : ∀ e t b t', hd e t ≠ (.ok b, t')) (h : M.tryCatch m p hd s = (.ok a, s1)) : m s = (.ok a, s1) := by
   unfold M.tryCatch at h
@@ -134,10 +128,21 @@ theorem bind_raise_ne_ok {α β : Type} (m : M Topo α) (e : Err) (t : Topo) (b 
   · rw [bind_ok hm]; simp
   · rw [bind_err hm]; simp
 
+/-- predicates that every guarded `connect_interface` keeps -/
+structure SvcStable (P : Topo → Prop) : Prop where
+  ids : ∀ s, P s → IdsOk s
+  closed : ∀ s, P s → ClosedOk s
+  conn : ∀ (fl : Flavour) (c : Nat) (svc iid : Nid) (iname : String) (cache : Cache) (s : Topo), HandleOk s svc .networkService →
+    HandleOk s iid .connectionPoint → (∀ m ∈ s.nodes, m.nid ≠ .gen c ∧ m.nid ≠ .gen (c + 1)) → NoSpIn s [.iface iid iname] → P s →
+    P (connectInterface fl c svc cache (.iface iid iname) s).2
+
+theorem svcStable_invS : SvcStable InvS :=
+  ⟨fun _ h => h.ids, fun _ h => h.closed, fun fl c svc iid iname cache s h1 h2 h3 h4 h => invS_connect fl c svc iid iname cache s h1 h2 h3 h4 h⟩
+
 /-- the loop of `NetworkService.__init__`, when the constructor returns -/
-theorem svcLoop_ok (fl : Flavour) (svc : Nid) (st : String) :
-    ∀ (rest : List IfArg) (c : Nat) (connected : List IfArg) (cache r : Cache) (s s' : Topo), LoopInv s svc c rest →
-      svcLoop fl svc st c rest connected cache s = (.ok r, s') → InvS s' := by
+theorem svcLoop_okP {P : Topo → Prop} (hP : SvcStable P) (fl : Flavour) (svc : Nid) (st : String) :
+    ∀ (rest : List IfArg) (c : Nat) (connected : List IfArg) (cache r : Cache) (s s' : Topo), LoopInvP P s svc c rest →
+      svcLoop fl svc st c rest connected cache s = (.ok r, s') → P s' := by
   intro rest
   induction rest with
   | nil =>
@@ -160,12 +165,16 @@ theorem svcLoop_ok (fl : Flavour) (svc : Nid) (st : String) :
     | bogus => unfold connectInterface at hconn; simp at hconn
     | iface iid iname =>
       obtain ⟨hnf, hcp, hnsp⟩ := hl.ifs _ (List.mem_cons_self ..)
-      have hgr := connect_ok_grows hl.inv.ids hl.inv.closed hcp hl.fresh hconn
-      have hinv : InvS s1 := by
-        have := invS_connect fl c svc iid iname cache s0 hl.svcOk hcp (freshTwo_of hl.fresh) hnsp hl.inv
+      have hgr := connect_ok_grows (hP.ids _ hl.inv) (hP.closed _ hl.inv) hcp hl.fresh hconn
+      have hinv : P s1 := by
+        have := hP.conn fl c svc iid iname cache s0 hl.svcOk hcp (freshTwo_of hl.fresh) hnsp hl.inv
         rw [hconn] at this; exact this
       refine ih (c + 2) _ cache' r s1 s' ⟨hinv, freshFrom_grows (by omega) hgr hl.fresh, handleOk_grows hgr hl.svcOk hl.svcNF,
         notFuture_mono (by omega) hl.svcNF, fun j hj => ifOk_grows (by omega) hgr (hl.ifs j (List.mem_cons_of_mem _ hj))⟩ hrest
+
+theorem svcLoop_ok (fl : Flavour) (svc : Nid) (st : String) :
+    ∀ (rest : List IfArg) (c : Nat) (connected : List IfArg) (cache r : Cache) (s s' : Topo), LoopInv s svc c rest →
+      svcLoop fl svc st c rest connected cache s = (.ok r, s') → InvS s' := svcLoop_okP svcStable_invS fl svc st
 
 def ParentOk (s : Topo) : Option Nid → Prop
   | none => True
@@ -227,8 +236,13 @@ theorem mkLoopInv {P : Topo → Prop} {s B : Topo} {sn : GNode} {id : Nid} {c c1
           have := htok
           rw [← hst, ht, sp_not_service_type] at this; cases this
 
-theorem svcNew_ok_inv (fl : Flavour) (c : Nat) (parent : Option Nid) (a : SvcArgs) (s s' : Topo) (r : Nid × Cache)
-    (h : InvS s) (g : SvcGuards s c parent a) (hok : svcNew fl c parent a s = (.ok r, s')) : InvS s' := by
+theorem svcNew_ok_invP {P : Topo → Prop} (hP : SvcStable P) (fl : Flavour) (c : Nat) (parent : Option Nid) (a : SvcArgs) (s s' : Topo)
+    (r : Nid × Cache) (h : P s) (g : SvcGuards s c parent a)
+    (hpush : ∀ sn : GNode, sn.cls = .networkService → sn.name = a.name → nodeOk sn = true → (∀ m ∈ s.nodes, m.nid ≠ sn.nid) →
+      (∀ m ∈ s.nodes, m.cls = .networkService → m.name ≠ a.name) → P (pushNode sn s))
+    (hatt : ∀ (p : Nid) (pn sn : GNode), parent = some p → pn ∈ s.nodes → pn.nid = p → sn.cls = .networkService → sn.name = a.name →
+      nodeOk sn = true → (∀ m ∈ s.nodes, m.nid ≠ sn.nid) → P (grow s [sn] [⟨pn.ref, sn.ref, .has⟩]))
+    (hok : svcNew fl c parent a s = (.ok r, s')) : P s' := by
   unfold svcNew at hok
   have hpf := pick_facts a.nid c
   rcases hp : pick a.nid c with ⟨id, c1⟩
@@ -251,14 +265,21 @@ theorem svcNew_ok_inv (fl : Flavour) (c : Nat) (parent : Option Nid) (a : SvcArg
       have := g.nid; rw [hn] at this; exact this
   have hifs : ∀ i ∈ a.ifs, IfOk s c i ∧ IfNotSelf id i := by
     intro i hi; have := g.ifs i hi; rw [hp] at this; exact this
-  have mkLoop : ∀ (B : Topo) (sn : GNode), InvS B → B.nodes = s.nodes ++ [sn] → sn.cls = .networkService → sn.nid = id →
-      sn.typ = t → (∀ m ∈ s.nodes, m.nid ≠ id) → LoopInv B id c1 a.ifs :=
+  have mkLoop : ∀ (B : Topo) (sn : GNode), P B → B.nodes = s.nodes ++ [sn] → sn.cls = .networkService → sn.nid = id →
+      sn.typ = t → (∀ m ∈ s.nodes, m.nid ≠ id) → LoopInvP P B id c1 a.ifs :=
     fun B sn hB hBn hsc hsi hst hfr => mkLoopInv hB hBn hsc hsi hst hfr hle hidnf g.fresh (g.typ t hty) hifs
   cases parent with
   | none =>
     simp only [Option.isNone, if_true] at hok
-    obtain ⟨_, _, hok⟩ := ro_ok_inv (readOnly_read _) hok
-    obtain ⟨_, _, hok⟩ := ro_ok_inv (readOnly_guard _ _) hok
+    obtain ⟨dup, hdup, hok⟩ := ro_ok_inv (readOnly_read _) hok
+    obtain ⟨_, hg, hok⟩ := ro_ok_inv (readOnly_guard _ _) hok
+    have hnodup : ∀ m ∈ s.nodes, m.cls = .networkService → m.name ≠ a.name := by
+      intro m hm hmc hmn
+      have hd : dup = false := by simpa using guard_ok hg
+      simp only [read_apply, Prod.mk.injEq, Except.ok.injEq, and_true] at hdup
+      rw [hd] at hdup
+      have := List.any_eq_false.mp hdup m hm
+      simp [hmc, hmn] at this
     obtain ⟨_, s1, hadd, hok⟩ := bind_ok_inv hok
     rcases addGNode_cases _ s with he | ⟨he, hfr⟩
     · rw [he] at hadd; simp at hadd
@@ -268,8 +289,8 @@ theorem svcNew_ok_inv (fl : Flavour) (c : Nat) (parent : Option Nid) (a : SvcArg
       obtain ⟨cache, s2, hloop, hpure⟩ := bind_ok_inv hok
       simp only [pure_apply', Prod.mk.injEq] at hpure
       rw [← hpure.2]
-      refine svcLoop_ok fl id t a.ifs c1 [] [] cache _ s2 (mkLoop _ _ ?_ rfl rfl rfl rfl hfr) hloop
-      exact invS_push h hfr hnode (by simp) (by simp)
+      refine svcLoop_okP hP fl id t a.ifs c1 [] [] cache _ s2 (mkLoop _ _ ?_ rfl rfl rfl rfl hfr) hloop
+      exact hpush _ rfl rfl hnode hfr hnodup
   | some p =>
     obtain ⟨⟨pn, hpnm, hpni⟩, hpcls⟩ := g.parent
     simp only [Option.isNone] at hok
@@ -280,7 +301,7 @@ theorem svcNew_ok_inv (fl : Flavour) (c : Nat) (parent : Option Nid) (a : SvcArg
       simp only [Prod.mk.injEq, true_and] at hadd
       subst hadd
       obtain ⟨_, s2, hedge, hok⟩ := bind_ok_inv hok
-      have hpn : findNode p s = (.ok pn, s) := by rw [← hpni]; exact findNode_of_mem h.ids hpnm
+      have hpn : findNode p s = (.ok pn, s) := by rw [← hpni]; exact findNode_of_mem (hP.ids _ h) hpnm
       have hrun := addEdge_run (r := .has) (findNode_push_old hpn hfr) (findNode_push_new hfr)
       simp only [] at hrun
       rw [hrun] at hedge
@@ -289,12 +310,22 @@ theorem svcNew_ok_inv (fl : Flavour) (c : Nat) (parent : Option Nid) (a : SvcArg
       obtain ⟨cache, s3, hloop, hpure⟩ := bind_ok_inv hok
       simp only [pure_apply', Prod.mk.injEq] at hpure
       rw [← hpure.2]
-      rw [attach_state h.closed hfr] at hloop
-      refine svcLoop_ok fl id t a.ifs c1 [] [] cache _ s3 (mkLoop _ _ ?_ rfl rfl rfl rfl hfr) hloop
-      have hpc := hpcls pn hpnm hpni
-      refine invS_attach h hpnm hfr hnode ?_ ?_ (by simp)
-      · rcases hpc with hc | hc <;> simp [edgeOk, GNode.ref, hc]
-      · rcases hpc with hc | hc <;> simp [hc]
+      rw [attach_state (hP.closed _ h) hfr] at hloop
+      refine svcLoop_okP hP fl id t a.ifs c1 [] [] cache _ s3 (mkLoop _ _ ?_ rfl rfl rfl rfl hfr) hloop
+      exact hatt p pn _ rfl hpnm hpni rfl rfl hnode hfr
+
+theorem svcNew_ok_inv (fl : Flavour) (c : Nat) (parent : Option Nid) (a : SvcArgs) (s s' : Topo) (r : Nid × Cache)
+    (h : InvS s) (g : SvcGuards s c parent a) (hok : svcNew fl c parent a s = (.ok r, s')) : InvS s' := by
+  refine svcNew_ok_invP svcStable_invS fl c parent a s s' r h g ?_ ?_ hok
+  · intro sn hsc _ hv hfr _
+    exact invS_push h hfr hv (by simp [hsc]) (by simp [hsc])
+  · intro p pn sn hpar hpnm hpni hsc _ hv hfr
+    have hpo := g.parent
+    rw [hpar] at hpo
+    have hpc := hpo.2 pn hpnm hpni
+    refine invS_attach h hpnm hfr hv ?_ ?_ (by simp [hsc])
+    · rcases hpc with hc | hc <;> simp [edgeOk, GNode.ref, hc, hsc]
+    · rcases hpc with hc | hc <;> simp [hc]
 /-! ## the downward-closed invariant, for every outcome (the rollback handler only deletes) -/
 
 theorem tryCatch_state {P : Topo → Prop} {α : Type} {m : M Topo α} {p : Err → Bool} {hd : Err → M Topo α} {s : Topo}
